@@ -106,7 +106,31 @@ def gen(tier, seed, info):
             if rnd.random() < 0.5:
                 n, p = rnd_prog(rnd, nl, nc)
                 prs.append("PR %d %d %s" % (w, n, p))
-        if k % 2 == 0:
+        if k % 4 == 2:
+            # handlers that hide / show other windows (lower siblings among them) and expose
+            for w in ids:
+                if rnd.random() < 0.5:
+                    acts = []
+                    for _k in range(rnd.randint(1, 2)):
+                        tgt = rnd.choice(ids)
+                        a = rnd.choice(["hi", "hi", "sh", "ea"])
+                        if tgt == 0:
+                            a = "ea"
+                        acts.append("%s %d" % (a, tgt))
+                    ras.append("RA %d %d %s" % (w, len(acts), " ".join(acts)))
+        elif k % 4 == 3:
+            # handlers that only expose (other damage is added while the flush works through its own)
+            for w in ids:
+                if rnd.random() < 0.6:
+                    acts = []
+                    for _k in range(rnd.randint(1, 3)):
+                        tgt = rnd.choice(ids)
+                        if rnd.random() < 0.3:
+                            acts.append("ea %d" % tgt)
+                        else:
+                            acts.append("ex %d %d %d %d %d" % (tgt, rnd.randint(-1, nl), rnd.randint(-1, nc), rnd.randint(1, nl), rnd.randint(1, nc)))
+                    ras.append("RA %d %d %s" % (w, len(acts), " ".join(acts)))
+        elif k % 2 == 0:
             for w in ids:
                 if rnd.random() < 0.45:
                     acts = []
